@@ -50,12 +50,12 @@ SPEC_CHECKS = ["WordsInRange", "LangAgrees"]      # consistency of the oracle it
 TRACE_CFG = "INIT Init\nNEXT Next\nCHECK_DEADLOCK FALSE\n" + "".join("INVARIANT %s\n" % c for c in SPEC_CHECKS + CLAUSES)
 WHAT = {
     "FirstSetsOk": "calculate_first_sets differs from FIRST (least fixpoint; nullable prefixes count)",
-    "LrClean": "LrParser.parse neither returned nor raised ParserException",
+    "LrClean": "LrParser.parse (grammar without shift/reduce conflict) neither returned nor raised ParserException",
     "LrSound": "generated parser accepted a token sequence the grammar does not derive",
     "LrTree": "value returned by parse is not the semantic value of a derivation of the input",
     "LrComplete": "parser generated without reported conflict (grammar has no shift/reduce conflict) rejects a derivable token sequence",
     "EarleyOk": "EarleyParser verdict differs from derivability",
-    "TablesWellFormed": "action/goto tables send the shift-reduce machine into an impossible configuration",
+    "TablesWellFormed": "action/goto tables (grammar without shift/reduce conflict) send the shift-reduce machine into an impossible configuration or an endless run",
     "MachineStackShape": "machine stack shape broken",
     "MachineViable": "stack of the machine running ppci's tables is not a viable prefix",
     "MachineAcceptAtEnd": "ppci's tables accept before the end of input / with a wrong tree",
@@ -415,6 +415,11 @@ class Engine:
         ctx.assume("'no reported conflict' is read as: LrParserBuilder returned tables and the grammar has no "
                    "shift/reduce conflict in the canonical LR(1) collection defined in LR.tla (shift/reduce "
                    "conflicts are resolved silently by set_action; for those only soundness is claimed)")
+        ctx.assume("ppci's Item hashes include the identity hash of the Production object, so the order in which "
+                   "set_action sees the items of a state (and hence, for grammars having both reduce/reduce and "
+                   "shift/reduce conflicts, whether a conflict is reported or silently resolved) can differ between "
+                   "processes; such grammars carry only the soundness claim either way, so verdicts are unaffected but "
+                   "the counts of 'conflict reported' grammars may vary by a few between runs")
         if ctx.only is None:
             self.model_check(ctx, thorough)
         grammars = worklist(ctx)
